@@ -104,13 +104,7 @@ Theorem hist_correct :
                                        | Some b', Some k' => Nat.eqb b' b && Nat.eqb k' k
                                        | _, _ => false
                                        end) rows)).
-Proof.
-  intros edges est parts Hlen Hinc rows b k. rewrite (hist_correct_thm edges est parts Hlen Hinc).
-  unfold hist_spec, count_tags. f_equal. induction rows as [|r rows IH]; [reflexivity|].
-  cbn [map filter]. unfold tag_hits at 1, row_tag at 1.
-  destruct (bin_spec edges (fst r)) as [b'|]; [destruct (class_of parts (snd r)) as [k'|]|]; try exact IH.
-  destruct (Nat.eqb b' b && Nat.eqb k' k); cbn [length]; rewrite IH; reflexivity.
-Qed.
+Proof. exact hist_correct_explicit. Qed.
 Print Assumptions hist_correct.
 
 (* the accumulator is a monoid (Leibniz equality, no shape hypothesis): the shape required by Model/Accum.v, so that
@@ -176,7 +170,7 @@ Theorem empty_cells_irrelevant :
      q_mi_code phi t (bs1 ++ b0 :: bs2) vs = q_mi_code phi t (bs1 ++ bs2) vs)
   /\ (forall bs vs1 v0 vs2, class_empty t bs v0 = true ->
      q_mi_code phi t bs (vs1 ++ v0 :: vs2) = q_mi_code phi t bs (vs1 ++ vs2)).
-Proof. intros phi t. split; [exact (empty_bin_irrelevant phi t)|exact (empty_class_irrelevant phi t)]. Qed.
+Proof. exact empty_cells_irrelevant_thm. Qed.
 Print Assumptions empty_cells_irrelevant.
 
 (* hence: the result over all bins and classes = the result over the populated ones only *)
@@ -185,7 +179,7 @@ Theorem mi_depends_on_populated_cells_only :
   q_mi_code phi t bs vs
   = q_mi_code phi t (filter (fun b => negb (bin_empty t vs b)) bs)
                     (filter (fun v => negb (class_empty t (filter (fun b => negb (bin_empty t vs b)) bs) v)) vs).
-Proof. intros phi t bs vs. rewrite (mi_nonempty_bins phi t bs vs) at 1. apply mi_nonempty_classes. Qed.
+Proof. exact mi_populated_cells_only. Qed.
 Print Assumptions mi_depends_on_populated_cells_only.
 
 (* each entropy on its own ignores empty bins when phi 0 = 0 — the convention 0 log 0 = 0 that the replacement implements *)
@@ -193,7 +187,7 @@ Theorem entropies_ignore_empty_bins :
   forall (phi : Qc -> Qc) (t : st) bs1 b0 bs2 vs, phi 0 = 0 -> bin_empty t vs b0 = true ->
   q_HB phi t (bs1 ++ b0 :: bs2) vs = q_HB phi t (bs1 ++ bs2) vs
   /\ q_HBV phi t (bs1 ++ b0 :: bs2) vs = q_HBV phi t (bs1 ++ bs2) vs.
-Proof. intros phi t bs1 b0 bs2 vs H0 He. split; [apply HB_ignores_empty_bin|apply HBV_ignores_empty_bin]; assumption. Qed.
+Proof. exact entropies_ignore_empty_bins_thm. Qed.
 Print Assumptions entropies_ignore_empty_bins.
 
 (* mi_nonneg (over R, phi = x * ln x with Coq's real logarithm; Gibbs' inequality from 1 + x < exp x): for every table
